@@ -200,7 +200,7 @@ def check(repo: Repo, run: Run) -> None:
             ok = ok and bool(app) and bool(loopvar) and loopvar[0] in ast.unparse(app[0].args[0])
         run.ob("C09.K6", fname, ok, f"{fname} has the shape its definition needs ({'; '.join(needles)})", ev.loc(fn))
     for fname in ("macro_map", "macro_filter", "macro_exists_one", "macro_exists", "macro_all"):
-        fn = ev.func(fname)
+        fn = ev.func_n(fname)
         s = ast.unparse(fn)
         run.shape("C09.K6", f"{fname}|binding", "nested_activation(vars={bind_variable:" in s and "cel_gen(activation)" in s,
                f"{fname} binds each element of cel_gen(activation) to the iteration variable in a nested activation", ev.loc(fn))
